@@ -27,6 +27,7 @@ class Cfg:
         self.radix = True
         self.big_ints = 0.05
         self.name_weight = 1
+        self.splice_escapes = False     # keep backslashes and quotes in string literals nested inside %( %)
         self.__dict__.update(kw)
 
 
@@ -483,6 +484,8 @@ class Gen:
     def strip_backslash_strings(self, node):
         """String literals nested in a splice must not contain a backslash or a quote: the
         lexer's embedded-expression scanner tracks quotes textually."""
+        if self.cfg.splice_escapes:
+            return node          # (the embedded-expression scanner copes with escapes and quotes in nested literals)
         if node[0] == "str":
             parts = [p.replace(b"\\", b"/").replace(b'"', b"'") if isinstance(p, bytes)
                      else self.strip_backslash_strings(p) for p in node[1]]
